@@ -34,7 +34,7 @@ func randDate(r *rng.R) (int, int, int) {
 		if r.Chance(1, 4) {
 			d = rng.Pick(r, 1, 28, 29, 30, 31)
 		}
-		if validDate(y, m, d) && !(y == 1 && m == 1 && d == 1) {
+		if validDate(y, m, d) {
 			return y, m, d
 		}
 	}
@@ -43,9 +43,20 @@ func randDate(r *rng.R) (int, int, int) {
 func dateCmp(c *ctx, y1, m1, d1, y2, m2, d2 int, tag string) {
 	p := types.ToDate(y1, time.Month(m1), d1)
 	q := types.ToDate(y2, time.Month(m2), d2)
+	// 0001-01-01 is also what the zero value of the type holds ("no date"): it is a date like any other here
+	if dateCmps++; dateCmps%2 == 0 {
+		if y1 == 1 && m1 == 1 && d1 == 1 {
+			p = types.Date{}
+		}
+		if y2 == 1 && m2 == 1 && d2 == 1 {
+			q = types.Date{}
+		}
+	}
 	out := guard(func() string { return b01(p.Before(q)) + " " + b01(p.Equals(q)) + " " + b01(p.After(q)) })
 	c.w.Emit(fmt.Sprintf("date-cmp %d %d %d %d %d %d", y1, m1, d1, y2, m2, d2), out, tag)
 }
+
+var dateCmps int
 
 // the same under another process zone (dates are local midnights: the verdict must not depend on it)
 func dateCmpIn(c *ctx, zone *time.Location, y1, m1, d1, y2, m2, d2 int, tag string) {
@@ -109,6 +120,15 @@ func streamOrder(c *ctx) {
 			dateCmp(c, t.Year(), int(t.Month()), t.Day(), t.Year(), int(t.Month()), t.Day(), "date/equal")
 			t = n
 		}
+	}
+	// the first day of the calendar (the type's zero value) against itself, its neighbour and dates of every era
+	for i := 0; i < 40; i++ {
+		y, m, d := randDate(r)
+		if i < 4 {
+			y, m, d = 1, 1, 1+i/2
+		}
+		dateCmp(c, 1, 1, 1, y, m, d, "date/first-day")
+		dateCmp(c, y, m, d, 1, 1, 1, "date/first-day-rev")
 	}
 	// other process zones: adjacent days around the Unix epoch, year 1/2, 1999/2000 and 9998/9999, plus random pairs
 	zones := []*time.Location{time.FixedZone("UTC+1", 3600), time.FixedZone("UTC+10", 36000), time.FixedZone("UTC-5", -18000), time.FixedZone("UTC-11", -39600)}
